@@ -990,10 +990,17 @@ func (c *hostile) dedicated() {
 		{TSl(false, e), []byte{0, 0, 0, 3, 9, 9}, true},                     // 3 > 2 remaining bytes: rejected
 		{TSl(false, e), ff, true},
 		{TSt(Ex(TSl(false, TSt(Un(TB(BU64))))), Ex(TB(BU8))), []byte{0x40, 0, 0, 0}, true},
-		// zero-size elements nested in a slice: every inner slice may announce as many elements as bytes remain
+		// zero-size elements nested in a slice: every inner slice may announce as many elements as bytes remain;
+		// the Reader's element budget (len(buf) slice elements in total) must stop this
 		{TSl(false, TSl(false, e)), nestedBomb(100), true},
-		{TSl(false, TSl(false, e)), nestedBomb(8000), false},                // 32 KB of input, 1.3e8 iterations
-		{TSl(false, TSl(false, TSt(Un(TB(BU64))))), nestedBomb(20000), false}, // 80 KB of input, 8 bytes per iteration
+		{TSl(false, TSl(false, e)), nestedBomb(8000), true},                  // 32 KB of input
+		{TSl(false, TSl(false, TSt(Un(TB(BU64))))), nestedBomb(20000), true}, // 80 KB of input, 8 bytes per element
+		// within / just beyond the budget
+		{TSl(false, TSl(false, e)), []byte{0, 0, 0, 2, 0, 0, 0, 3, 0, 0, 0, 3}, true},
+		{TSl(false, TSl(false, e)), []byte{0, 0, 0, 2, 0, 0, 0, 3, 0, 0, 0, 3, 7, 7, 7}, true},
+		{TSl(false, TSl(false, e)), []byte{0, 0, 0, 3, 0, 0, 0, 8, 0, 0, 0, 5, 0, 0, 0, 1, 9}, true},
+		{TArr(3, TSl(false, e)), []byte{0, 0, 0, 3, 0, 0, 0, 8, 0, 0, 0, 4, 0, 0, 0, 0}, true},
+		{TSt(Ex(TSl(false, e)), Ex(TSl(true, TB(BU8))), Ex(TSl(false, e))), []byte{0, 0, 0, 9, 0, 0, 0, 2, 1, 2, 0, 0, 0, 1, 5}, true},
 	}
 	for _, x := range cases {
 		c.decode("hostile", x.t, x.data, zeroVal(x.t), x.emit)
